@@ -46,7 +46,8 @@ def cases(tier, seed, args):
             da = int(rng.choice([d for d in range(n) if d != ka]))
         out.append(dict(t='mask', fn=fn, n=n, ka=ka, da=da, keepdims=bool(i % 4 == 1),
                         shape=[int(rng.integers(1, 7)) for _ in range(n)], neg=bool(rng.integers(2)),
-                        seed=int(rng.integers(1 << 30)), regime=['lat', 'tied', 'zero'][i % 3]))
+                        seed=int(rng.integers(1 << 30)), regime=['lat', 'tied', 'zero'][i % 3],
+                        sexp=[0, -20, 20, -26][(i // 5) % 4] if fn in ('ratio', 'icm', 'psm') else 0))
     # quantile / lorenz
     for i in range(40 if q else 400):
         n = int(rng.integers(2, 5))
@@ -66,7 +67,8 @@ def cases(tier, seed, args):
         w = [[999, 1000], [1, 2], [1, 1], [0, 1]][i % 4]
         out.append(dict(t='mask', fn=fn, n=n, ka=0, da=da, keepdims=bool(i % 8 == 1), axes=axes, shape=shape,
                         neg=bool(rng.integers(2)), seed=int(rng.integers(1 << 30)), q=qv, frac=fr, w=w,
-                        regime=['lat', 'tied', 'distinct'][i % 3], scalar_axis=bool(naxes == 1 and i % 3 == 0)))
+                        regime=['lat', 'tied', 'distinct'][i % 3], scalar_axis=bool(naxes == 1 and i % 3 == 0),
+                        qtuple=[0, 0, 1, 2, 3][(i // 2) % 5] if fn == 'quantile' else 0))
     return out
 
 
@@ -92,10 +94,16 @@ def run_case(case):
     sig = _signal(rng, shape, case['regime'])
     fn = case['fn']
     neg = case['neg']
+    # the masks built from amplitude ratios are homogeneous of degree zero: the call sees 2^sexp * sig (an exact
+    # scaling in binary floating point), the record carries the lattice signal the specification evaluates
+    sexp = case.get('sexp', 0)
+    lattice = sig
+    if sexp:
+        sig = sig * 2.0 ** sexp
     A = lambda a: a - n if neg else a
-    rec = dict(kind='mask', fn=fn, shape=enc.shape(sig), sig=enc.acint(sig), ka=A(ka),
+    rec = dict(kind='mask', fn=fn, shape=enc.shape(lattice), sig=enc.acint(lattice), ka=A(ka),
                da=0 if da is None else A(da), has_da=da is not None, keepdims=case['keepdims'],
-               mod=enc.aint(np.rint(np.abs(sig)).astype(int)))
+               mod=enc.aint(np.rint(np.abs(lattice)).astype(int)))
     d0 = enc.digest(sig)
     sig.setflags(write=False)
     kw = dict(source_axis=A(ka))
@@ -116,6 +124,29 @@ def run_case(case):
         axes = [A(a) for a in case['axes']]
         rec.update(axes=axes, q=case['q'], w=case['w'])
         ax = axes[0] if case.get('scalar_axis') else tuple(axes)
+        qt = case.get('qtuple', 0)
+        if qt:
+            # sequence of quantiles: one mask per entry, each the scalar-quantile mask with the SAME weight
+            q2 = [-1, 4] if case['q'][0] > 0 else [3, 10]
+            qs = [case['q'], q2]
+            seq = [a / b for a, b in qs]
+            kwq = dict(axis=ax, weight=case['w'][0] / case['w'][1])
+            if qt == 3:          # documented defaults: quantile=(0.1, -0.9), weight=0.999
+                qs, kwq = [[1, 10], [-9, 10]], dict(axis=ax)
+                rec['w'] = [999, 1000]
+                outs, exc = _call(mm.quantile_mask, sig, **kwq)
+            else:
+                outs, exc = _call(mm.quantile_mask, sig, quantile=tuple(seq) if qt == 1 else list(seq), **kwq)
+            if enc.digest(sig) != d0:
+                exc = 'InputMutated'
+            recs = []
+            for j, qq in enumerate(qs):
+                o = None if outs is None or np.shape(outs)[0] != len(qs) else outs[j]
+                e = exc or ('' if o is not None else 'BadShape')
+                recs.append(dict(rec, q=qq, exc=e, out_shape=[] if o is None else enc.shape(o),
+                                 out=[] if o is None else enc.arat(np.real(o)),
+                                 fp=f'fn=quantile;seq={qt};regime={case["regime"]};neg={neg}', key=f'quantile:{case["seed"]}:{j}'))
+            return recs
         out, exc = _call(mm.quantile_mask, sig, quantile=case['q'][0] / case['q'][1], axis=ax,
                          weight=case['w'][0] / case['w'][1])
     else:
@@ -131,6 +162,6 @@ def run_case(case):
         exc = 'InputMutated'
     rec.update(exc=exc, out_shape=[] if out is None else enc.shape(out),
                out=[] if out is None else (enc.acrat(out) if fn == 'icm' else enc.arat(np.real(out))),
-               fp=f'fn={fn};regime={case["regime"]};da={"none" if da is None else "given"};neg={neg}',
+               fp=f'fn={fn};regime={case["regime"]};da={"none" if da is None else "given"};neg={neg};sexp={sexp}',
                key=f'{fn}:{case["seed"]}')
     return [rec]
